@@ -366,7 +366,10 @@ pub fn quotafill(a: &HashMap<String, String>) -> i32 {
             let mut open: Vec<(usize, u8, u8)> = vec![]; // op, qos, stage
             for round in 0..2 {
                 // fill
-                while open.len() < rr {
+                // (with the Receive Maximum at or near the top of its range the quota is not filled up - trace validation is
+                // quadratic in the number of exchanges open at once; every R in 1..65535 is covered by the inductive invariant
+                // spec/apalache/QuotaInd.tla - but 2 000 publishes must all be accepted)
+                while open.len() < rr.min(2000) {
                     let k = next;
                     next += 1;
                     let q = if rng.gen_range(0..3) == 0 { 2 } else { 1 };
@@ -643,7 +646,9 @@ pub fn resume(a: &HashMap<String, String>) -> i32 {
                 for cut in cuts {
                     // (requested interval, interval assigned by the broker in CONNACK - that one governs -, seconds since the loss)
                     for (sei, sei_ack, secs) in [(0u32, None, 0u64), (100, None, 0), (100, None, 150), (u32::MAX, None, 0), (u32::MAX, None, 1_000_000),
-                                                 (1000, Some(10u32), 50), (5, Some(1000), 50), (0, Some(u32::MAX), 7), (u32::MAX, Some(0), 0)] {
+                                                 (1000, Some(10u32), 50), (5, Some(1000), 50), (0, Some(u32::MAX), 7), (u32::MAX, Some(0), 0),
+                                                 // the boundary: an interval of N seconds has elapsed once N whole seconds have passed (never N-1: the clock may tick)
+                                                 (100, None, 100), (1, None, 1), (100, None, 101), (7, Some(3), 3)] {
                         let run = match sink.mine() {
                             Some(x) => x,
                             None => continue,
@@ -993,7 +998,8 @@ pub fn backlog(a: &HashMap<String, String>) -> i32 {
 pub fn sidwrap(a: &HashMap<String, String>) -> i32 {
     let mut sink = Sink::new(a);
     let seed = seed_of(a);
-    for gap in [65_533u64, 65_534, 65_535, 65_536] {
+    // (16 38x: the traced calls land on both sides of the second step of the identifier's variable byte integer)
+    for gap in [16_380u64, 16_381, 65_533, 65_534, 65_535, 65_536] {
         let run = match sink.mine() {
             Some(x) => x,
             None => continue,
@@ -1139,6 +1145,119 @@ pub fn earlyops(a: &HashMap<String, String>) -> i32 {
 }
 
 // ---------------------------------------------------------------------------------------------
+// C01 with a writer that stalls inside a packet: the transport takes the first b bytes of a request and then returns Pending;
+// meanwhile the caller gives up (drops its future) or not, further requests are queued; then the transport goes on. Whatever
+// happens to the abandoned request, the wire must remain a concatenation of whole packets in submission order.
+
+pub fn cutwrite(a: &HashMap<String, String>) -> i32 {
+    let thorough = tier_of(a);
+    let mut sink = Sink::new(a);
+    let seed = seed_of(a);
+    let firsts: Vec<Value> = vec![
+        pub_spec(1, 0, 5),
+        pub_spec(1, 0, 200),
+        pub_spec(1, 1, 5),
+        pub_spec(1, 2, 40),
+        json!({"kind": "disc", "reason": 4, "rs": "bye"}),
+        json!({"kind": "sub", "filters": [{"f": "f/1", "qos": 1}]}),
+        json!({"kind": "unsub", "filters": [{"f": "f/1"}]}),
+        json!({"kind": "ping"}),
+    ];
+    let budgets: Vec<usize> = if thorough { (1..=24).collect() } else { vec![1, 2, 3, 4, 6, 9, 13] };
+    for first in &firsts {
+        for b in &budgets {
+            for dropit in [false, true] {
+                let run = match sink.mine() {
+                    Some(x) => x,
+                    None => continue,
+                };
+                let mut steps = vec![reset("cutwrite", Some(5), None)];
+                steps.push(json!({"a": "clone", "from": 0}));
+                steps.push(json!({"a": "call", "op": 1, "h": 0, "spec": first}));
+                steps.push(poll_op(1));
+                steps.push(json!({"a": "wrmode", "m": "budget", "k": b}));
+                steps.push(poll_ctx());
+                if dropit {
+                    steps.push(json!({"a": "drop", "t": "op", "k": 1}));
+                }
+                steps.push(json!({"a": "call", "op": 2, "h": 1, "spec": pub_spec(2, 0, 3)}));
+                steps.push(poll_op(2));
+                steps.push(json!({"a": "call", "op": 3, "h": 1, "spec": {"kind": "ping"}}));
+                steps.push(poll_op(3));
+                steps.push(poll_ctx());
+                steps.push(poll_ctx());
+                steps.push(json!({"a": "wrmode", "m": "accept", "k": 0}));
+                steps.push(settle_wake());
+                steps.push(json!({"a": "autoack"}));
+                steps.push(settle_wake());
+                steps.push(json!({"a": "autoack"}));
+                steps.push(settle());
+                sink.run_script(run, steps, seed);
+            }
+        }
+    }
+    sink.finish();
+    0
+}
+
+// ---------------------------------------------------------------------------------------------
+// C09 / C06 / C10 with the SAME packet identifier in use in both directions at once: the client's identifiers and the broker's
+// are independent spaces. An outbound QoS 1/2 exchange and an inbound QoS 2 exchange carry the same number; the steps of the two
+// are interleaved in every order (each exchange keeps its own order), with a re-delivery of the inbound message before its PUBREL.
+
+pub fn crossid(a: &HashMap<String, String>) -> i32 {
+    let mut sink = Sink::new(a);
+    let seed = seed_of(a);
+    for out_qos in [1u8, 2] {
+        // outbound steps (after the PUBLISH is on the wire) and inbound steps, merged in every order
+        let outb: Vec<Value> = if out_qos == 1 {
+            vec![json!({"a": "pkt", "pk": {"t": "PUBACK", "id": {"op": 2}, "rc": 0}})]
+        } else {
+            vec![json!({"a": "pkt", "pk": {"t": "PUBREC", "id": {"op": 2}, "rc": 0}}), json!({"a": "pkt", "pk": {"t": "PUBCOMP", "id": {"op": 2}, "rc": 0}})]
+        };
+        let m = |dup: u8, tag: &str| json!({"a": "pkt", "pk": {"t": "PUBLISH", "qos": 2, "id": {"op": 2}, "dup": dup, "topic": format!("x/{}", tag), "payload": tag, "sids": [{"sub": 1}]}});
+        let inb: Vec<Value> = vec![m(0, "one"), m(1, "one"), json!({"a": "pkt", "pk": {"t": "PUBREL", "id": {"op": 2}, "rc": 0}}), m(0, "two"), json!({"a": "pkt", "pk": {"t": "PUBREL", "id": {"op": 2}, "rc": 0}})];
+        // all merges: choose the positions of the outbound steps among the combined sequence
+        let total = outb.len() + inb.len();
+        for mask in 0u32..(1 << total) {
+            if mask.count_ones() as usize != outb.len() {
+                continue;
+            }
+            let run = match sink.mine() {
+                Some(x) => x,
+                None => continue,
+            };
+            let mut steps = vec![reset("crossid", Some(3), None)];
+            steps.push(json!({"a": "call", "op": 1, "h": 0, "spec": {"kind": "sub", "filters": [{"f": "f/1", "qos": 2}]}}));
+            steps.push(settle_wake());
+            steps.push(json!({"a": "pkt", "pk": {"t": "SUBACK", "id": {"op": 1}, "rcs": [2]}}));
+            steps.push(settle_wake());
+            steps.push(json!({"a": "call", "op": 2, "h": 0, "spec": pub_spec(2, out_qos, 3)}));
+            steps.push(settle_wake());
+            let (mut oi, mut ii) = (0usize, 0usize);
+            for pos in 0..total {
+                if mask >> pos & 1 == 1 {
+                    steps.push(outb[oi].clone());
+                    oi += 1;
+                } else {
+                    steps.push(inb[ii].clone());
+                    ii += 1;
+                }
+                steps.push(settle_wake());
+            }
+            // afterwards both spaces are free again
+            steps.push(json!({"a": "call", "op": 3, "h": 0, "spec": pub_spec(3, 1, 1)}));
+            steps.push(settle_wake());
+            steps.push(json!({"a": "autoack"}));
+            steps.push(settle());
+            sink.run_script(run, steps, seed);
+        }
+    }
+    sink.finish();
+    0
+}
+
+// ---------------------------------------------------------------------------------------------
 // C03: framing under every chunking
 
 struct StreamPk {
@@ -1155,7 +1274,11 @@ fn mk(pk: &Pk, form: u8) -> StreamPk {
 /// Emits one run: set-up (a subscription with identifier `sid`, `npings` pings and `npubs` QoS 1 publishes
 /// outstanding), then the byte stream split at `cuts` (offsets), either all at once or one chunk per
 /// quiescent point.
+/// `--sweep 1`: between the chunks every task is polled once more although no waker fired (the sweeping discipline of C16)
+static CHUNK_SWEEP: std::sync::atomic::AtomicBool = std::sync::atomic::AtomicBool::new(false);
+
 fn chunk_run(sink: &mut Sink, run: usize, fam: &str, pks: &[StreamPk], cuts: &[usize], upfront: bool, npings: usize, npubs: usize, seed: u64) {
+    let sweep = CHUNK_SWEEP.load(std::sync::atomic::Ordering::Relaxed);
     let p = Params { run, fam: fam.into(), r: Some(50), ..Default::default() };
     let mut rng = StdRng::seed_from_u64(seed);
     let mut s = start(&p);
@@ -1192,12 +1315,43 @@ fn chunk_run(sink: &mut Sink, run: usize, fam: &str, pks: &[StreamPk], cuts: &[u
         step(&mut s, &mut rng, json!({"a": "raw", "hex": crate::sim::hex(&all[prev..b]), "pks": done}));
         prev = b;
         if !upfront {
-            step(&mut s, &mut rng, settle_wake());
+            step(&mut s, &mut rng, if sweep { settle() } else { settle_wake() });
         }
     }
     step(&mut s, &mut rng, settle());
     let lines = s.trace.clone();
-    sink.lines(run, &lines, Value::Array(script));
+    let sweep_outcome = if sweep { Some(outcome(&s)) } else { None };
+    drop(step);
+    sink.lines(run, &lines, Value::Array(script.clone()));
+    if let Some(o_sweep) = sweep_outcome {
+        // C16, third clause, on a script without any race (only the reader is involved): the same script with wake-only settles
+        // must end with the same outcome. Reported as a run of its own (the sweeping run above may already have diverged).
+        let wake_script: Vec<Value> = script
+            .iter()
+            .cloned()
+            .map(|mut st| {
+                if st["a"] == "settle" {
+                    st["sweep"] = json!(false);
+                }
+                st
+            })
+            .collect();
+        let mut rng2 = StdRng::seed_from_u64(seed);
+        let mut s2 = start(&p);
+        for st in &wake_script[1..wake_script.len() - 1] {
+            exec_step(&mut s2, &mut rng2, st);
+        }
+        exec_step(&mut s2, &mut rng2, &settle()); // the last settle sweeps in both (everything has been delivered by then)
+        let o_wake = outcome(&s2);
+        let same = o_wake == o_sweep;
+        let detail = if same { String::new() } else { first_diff(&o_wake, &o_sweep) };
+        let cmp = vec![
+            json!({"e": "reset", "run": run + 10_000_000, "fam": fam, "R": 50, "M": 0, "sei": 0, "seik": "zero", "disc": "sweep",
+                   "mode": if cfg!(debug_assertions) { "dev" } else { "release" }, "ok": 1, "recon": 0}).to_string(),
+            json!({"e": "disccmp", "variant": "sweep", "same": same as u8, "detail": detail}).to_string(),
+        ];
+        sink.lines(run + 10_000_000, &cmp, Value::Array(script));
+    }
 }
 
 fn in_publish(qos: u8, id: u16, n: usize, tag: usize) -> Pk {
@@ -1215,6 +1369,7 @@ fn in_publish(qos: u8, id: u16, n: usize, tag: usize) -> Pk {
 pub fn chunk(a: &HashMap<String, String>) -> i32 {
     let thorough = tier_of(a);
     let mode = a.get("mode").cloned().unwrap_or("exh".into());
+    CHUNK_SWEEP.store(a.get("sweep").map(|s| s == "1").unwrap_or(false), std::sync::atomic::Ordering::Relaxed);
     let mut sink = Sink::new(a);
     let seed = seed_of(a);
     if mode == "exh" {
@@ -1889,15 +2044,13 @@ pub fn disccmp(a: &HashMap<String, String>) -> i32 {
         cfg.steps = 50;
         cfg.endings = vec!["none"]; // simultaneous terminating causes may legally be reported in either order
         cfg.unsolicited_pct = 0; // an acknowledgement nobody waits for yet races with the request it would match
-        if cfg.w_wr > 0 {
-            // With a writer that may block, one poll of the actor handles only part of what is ready, and which part (the
-            // packet or the queued request first) is the library's pseudo-random select: whether a cancellation recorded in
-            // the script finds its target already completed then differs between two runs of the SAME discipline. Scripts
-            // with blocking writers therefore carry no cancellations here (cancellations are compared in the profiles
-            // without blocking; clauses (1) and (2) of C16 are checked on every run by the trace specification).
-            cfg.w_cancel = 0;
-            cfg.w_dropst = 0;
-        }
+        // With a writer that may block, one poll of the actor handles only part of what is ready, and which part (the packet
+        // or the queued request first) is the library's pseudo-random select: the script - a cancellation, or a broker reply
+        // placed where the recorded run had already written the request it answers - then meets a different situation in two
+        // runs of the SAME discipline (e.g. a PUBCOMP arriving before the PUBREL it answers was written). The scripts
+        // compared here therefore use writers that take every write at once or in pieces, never ones that return Pending;
+        // pending writes are covered by clauses (1) and (2) of C16, checked on every run of every walk by the trace specification.
+        cfg.block_ok = false;
         let rseed = seed.wrapping_mul(7919).wrapping_add(i as u64);
         let p = Params { run: base * 3, fam: "disccmp".into(), r: None, disc: "wake".into(), ..Default::default() };
         // Receive Maximum absent: with a small quota the outcome of a publish legitimately depends on whether a
@@ -1950,7 +2103,7 @@ pub fn endings(a: &HashMap<String, String>) -> i32 {
     let thorough = tier_of(a);
     let mut sink = Sink::new(a);
     let seed = seed_of(a);
-    let states = ["idle", "ops", "midq2", "queued", "recunpolled", "recunpolled-drop", "stbuf"];
+    let states = ["idle", "ops", "ops-drop", "midq2", "queued", "recunpolled", "recunpolled-drop", "stbuf"];
     let mut causes: Vec<Value> = vec![];
     for behind in 0..3usize {
         for after in 0..2usize {
@@ -1995,14 +2148,23 @@ pub fn endings(a: &HashMap<String, String>) -> i32 {
             // ContextExited whatever its size)
             let m = if cause["c"] == "oversized-disc" { Some(34u32) } else { Some(64u32) };
             let mut steps = vec![reset("endings", Some(5), m)];
+            // every other run with a session that may be resumed (what happens at the end of the connection must not depend on it)
+            if run % 2 == 1 || st == "ops-drop" {
+                steps[0]["sei_connect"] = json!(3600);
+            }
             let mut next = 1usize;
             let mut live_ops: Vec<usize> = vec![];
             match st {
-                "ops" | "midq2" => {
+                "ops" | "ops-drop" | "midq2" => {
                     steps.push(json!({"a": "call", "op": 1, "h": 0, "spec": {"kind": "sub", "filters": [{"f": "f/1", "qos": 1}]}}));
                     steps.push(json!({"a": "call", "op": 2, "h": 0, "spec": pub_spec(2, 1, 2)}));
                     steps.push(json!({"a": "call", "op": 3, "h": 0, "spec": pub_spec(3, 2, 2)}));
                     steps.push(json!({"a": "call", "op": 4, "h": 0, "spec": {"kind": "ping"}}));
+                    if st == "ops-drop" {
+                        // requests that are never re-sent on a resumed session, awaiting their acknowledgements at the end
+                        steps.push(json!({"a": "call", "op": 5, "h": 0, "spec": {"kind": "sub", "filters": [{"f": "f/5", "qos": 0}]}}));
+                        steps.push(json!({"a": "call", "op": 6, "h": 0, "spec": {"kind": "unsub", "filters": [{"f": "f/6"}]}}));
+                    }
                     steps.push(settle_wake());
                     steps.push(json!({"a": "pkt", "pk": {"t": "SUBACK", "id": {"op": 1}, "rcs": [1]}}));
                     steps.push(settle_wake());
@@ -2014,8 +2176,8 @@ pub fn endings(a: &HashMap<String, String>) -> i32 {
                         steps.push(poll_op(3));
                         steps.push(poll_ctx());
                     }
-                    next = 5;
-                    live_ops = vec![2, 3, 4];
+                    next = if st == "ops-drop" { 7 } else { 5 };
+                    live_ops = if st == "ops-drop" { vec![2, 3, 4, 5, 6] } else { vec![2, 3, 4] };
                 }
                 "stbuf" => {
                     // a stream with two messages buffered that the consumer has not taken yet (they must still come out, then the end)
@@ -2051,6 +2213,10 @@ pub fn endings(a: &HashMap<String, String>) -> i32 {
                     live_ops = vec![1, 2];
                 }
                 _ => {}
+            }
+            // how the transport reacts to being closed is none of the library's outcomes
+            if run % 3 != 0 {
+                steps.push(json!({"a": "closemode", "m": run % 3}));
             }
             match cause["c"].as_str().unwrap_or("") {
                 "userdisc" => {
@@ -2124,7 +2290,7 @@ pub fn endings(a: &HashMap<String, String>) -> i32 {
                 }
                 _ => {}
             }
-            if st == "recunpolled-drop" || st == "stbuf" {
+            if st == "recunpolled-drop" || st == "stbuf" || st == "ops-drop" {
                 // the context ends and is dropped before the caller between its QoS 2 phases is polled again
                 steps.push(poll_ctx());
                 steps.push(poll_ctx());
